@@ -21,6 +21,11 @@ Next == \/ /\ Len(s) < MaxLen /\ ~done
                 PrintT("@@CASE " \o ToJson([content |-> c, pos |-> p - 1, want |-> Render(c, p)]))
            /\ \A c \in FarCases : \A p \in {1, 300, Len(c) - 10, Len(c) - 8, Len(c) - 5, Len(c) - 3, Len(c) - 2, Len(c)} :
                 PrintT("@@CASE " \o ToJson([content |-> c, pos |-> p - 1, want |-> Render(c, p)]))
+           \* characters that are white space elsewhere but no blanks of this notation (VT, FF, no-break space, ideographic space) at the
+           \* beginning of a line: they are text, shown and counted
+           /\ \A c \in {<<97, 10, 11, 11, 120, 121>>, <<97, 10, 12, 120, 10, 98>>, <<97, 10, 194, 160, 194, 160, 120, 10, 98>>, <<227, 128, 128, 120, 121>>,
+                        <<32, 11, 32, 120>>, <<9, 194, 160, 120, 13, 10, 12, 12>>} :
+                \A p \in 1..Len(c) : PrintT("@@CASE " \o ToJson([content |-> c, pos |-> p - 1, want |-> Render(c, p)]))
            \* long lines of bytes outside ASCII (continuation bytes only; two- and three-byte characters across the 200-byte cut):
            \* what the excerpt shows there is not specified, rendering must still not panic
            /\ \A c \in {[i \in 1..300 |-> 128], [i \in 1..300 |-> IF i % 2 = 1 THEN 195 ELSE 169],
